@@ -5,7 +5,7 @@ from __future__ import annotations
 import ast
 
 from csverif.absint import SymPoly, sympoly
-from csverif.astutil import assignments_to, body_walk, compare_parts, const_eval, dotted, fn_calls, is_const, kwarg, NotConst, params, src, statements, strip_cast
+from csverif.astutil import pmatch, find_match, assignments_to, body_walk, compare_parts, const_eval, dotted, fn_calls, is_const, kwarg, NotConst, params, src, statements, strip_cast
 from csverif.cfg import ENTRY, EXIT
 from csverif.q import FuncView, dominating_conditions, guarded_by, origin, raise_class, specialise
 
@@ -100,31 +100,45 @@ def r1(ctx):
     ino = ctx.repo.func("xordecode.iter_nonce_offsets")
     ok = False
     detail = "no `decoded_size + i + 8 == real_size` relation"
+    # roles: i = the scan variable (for-target over range), D = the decoded size (u32 of the XOR of the two header words),
+    # T = the total size (the function's second parameter)
+    loopv = [dotted(s2.target) for s2 in statements(ino.node) if isinstance(s2, ast.For) and isinstance(s2.iter, ast.Call) and dotted(s2.iter.func) == "range"]
+    total = params(ino.node)[1]
+    dvar = None
+    ds_ok = False
+    for s2 in statements(ino.node):
+        if isinstance(s2, ast.Assign) and isinstance(s2.value, ast.Call) and isinstance(s2.targets[0], ast.Name):
+            cal = ctx.rs.resolve_call(ino, s2.value)
+            if cal.kind == "func" and cal.func.fq == "utils.unpack" and s2.value.args and isinstance(s2.value.args[0], ast.Call) and ctx.rs.resolve_call(ino, s2.value.args[0]).fq == "utils.xor":
+                dvar = s2.targets[0].id
+                x = s2.value.args[0]
+                # both XOR operands are the two consecutive 4-byte reads of this iteration
+                ops = [origin(ino.node, a) for a in x.args]
+                two_reads = len(ops) == 2 and all(isinstance(o, ast.Call) and isinstance(o.func, ast.Attribute) and o.func.attr == "read" and _c(o.args[0]) == 4 for o in ops) and ops[0] is not ops[1]
+                ds_ok = two_reads and _c(cal.bound.get("size")) == 4 and (_c(cal.bound.get("byteorder")) or "little") == "little"
     for n in body_walk(ino.node):
-        if isinstance(n, ast.Compare) and isinstance(n.ops[0], ast.Eq):
+        if isinstance(n, ast.Compare) and isinstance(n.ops[0], ast.Eq) and dvar and loopv:
             l, r = sympoly(n.left), sympoly(n.comparators[0])
             if l is not None and r is not None:
                 diff = l - r
-                want = SymPoly.atom("decoded_size") + SymPoly.atom("i") + SymPoly.const(8) - SymPoly.atom("real_size")
+                want = SymPoly.atom(dvar) + SymPoly.atom(loopv[0]) + SymPoly.const(8) - SymPoly.atom(total)
                 if diff == want or diff == -want:
                     ok = True
                     detail = f"size relation {src(n)}: header length 8 agrees with tell/seek"
                 else:
-                    detail = f"size relation {src(n)} = {diff}; required decoded_size + i + 8 - real_size"
+                    detail = f"size relation {src(n)} = {diff}; required <decoded size> + <offset> + 8 - <total size>"
     ctx.ob("R1", "CURSOR", ino, "size relation", ok, detail)
-    ds = [v for st2, v in assignments_to(ino.node, "decoded_size")]
-    ok = len(ds) == 1 and isinstance(ds[0], ast.Call) and ctx.rs.resolve_call(ino, ds[0]).fq == "utils.unpack" and src(ds[0].args[0]) in ("xor(nonce, size)", "xor(size, nonce)")
-    if ok:
-        cal = ctx.rs.resolve_call(ino, ds[0])
-        ok = _c(cal.bound.get("size")) == 4 and (_c(cal.bound.get("byteorder")) or "little") == "little"
-    ctx.ob("R1", "AGREE", ino, "decoded_size = u32(xor(nonce, size))", bool(ok), "size dword is un-XORed with the nonce and read little-endian" if ok else "decoded size is not u32-le(xor(nonce, size))")
+    ctx.ob("R1", "AGREE", ino, "decoded_size = u32(xor(nonce, size))", bool(ds_ok), "size dword is un-XORed with the nonce (the two 4-byte words read at the candidate) and read little-endian" if ds_ok else "decoded size is not u32-le(xor(<nonce word>, <size word>))")
     rn = ctx.repo.func("xordecode.XorEncodedFile.read_nonce")
     ok1 = ok2 = False
+    posv = [dotted(s2.targets[0]) for s2 in statements(rn.node) if isinstance(s2, ast.Assign) and src(s2.value) == "self.fh.tell()"]
+    posv = posv[0] if posv else "pos"
     for n in body_walk(rn.node):
-        if isinstance(n, ast.Compare) and isinstance(n.ops[0], ast.Lt) and dotted(n.left) == "pos":
+        if isinstance(n, ast.Compare) and isinstance(n.ops[0], ast.Lt) and dotted(n.left) == posv:
             ok1 = sympoly(n.comparators[0]) == H + SymPoly.const(4)
-    for st2, v in assignments_to(rn.node, "offset"):
-        ok2 = sympoly(v) == SymPoly.atom("pos") - H
+    for s2 in statements(rn.node):
+        if isinstance(s2, ast.Assign) and sympoly(s2.value) == SymPoly.atom(posv) - H:
+            ok2 = True
     ctx.ob("R1", "CURSOR", rn, "first-word boundary", ok1 and ok2, f"initial nonce used while pos < nonce_offset + 12={ok1}; offset within the first word = pos - (nonce_offset + 8)={ok2}")
 
 
@@ -200,14 +214,15 @@ def r3(ctx):
         return
     w = loop[0]
     xors = [c for c in ast.walk(w) if isinstance(c, ast.Call) and ctx.rs.resolve_call(f, c).fq == "utils.xor"]
-    ok = len(xors) == 1 and [dotted(a) for a in xors[0].args] == ["chunk", "nonce"]
-    ch = [v for st, v in assignments_to(f.node, "chunk")]
+    ok = len(xors) == 1 and len(xors[0].args) == 2 and all(isinstance(a, ast.Name) for a in xors[0].args)
+    CH, NO = (xors[0].args[0].id, xors[0].args[1].id) if ok else ("chunk", "nonce")
+    ch = [v for st, v in assignments_to(f.node, CH)]
     ok = ok and len(ch) == 1 and src(ch[0]) == "self.fh.read(4)"
     ctx.ob("R3", "AGREE", f, "xor(chunk, nonce)", ok, "each 4-byte ciphertext word is XORed with the current nonce" if ok else "decode step is not xor(<4-byte read>, nonce)")
-    nd = [(st, v) for st, v in assignments_to(f.node, "nonce")]
+    nd = [(st, v) for st, v in assignments_to(f.node, NO)]
     inloop = [(st, v) for st, v in nd if any(st is x for x in ast.walk(w))]
     first = [(st, v) for st, v in nd if not any(st is x for x in ast.walk(w))]
-    chain = len(inloop) == 1 and dotted(inloop[0][1]) == "chunk"
+    chain = len(inloop) == 1 and dotted(inloop[0][1]) == CH
     cfg = ctx.cfg(f)
     fv = FuncView.of(f.node)
     after = chain and xors and cfg.reaches(cfg.node(fv.stmt_of(xors[0])), cfg.node(inloop[0][0]), avoiding=[cfg.node(w)])
@@ -254,5 +269,14 @@ def r4(ctx):
     last = [r for r in cfg.raise_stmts() if raise_class(r) == "ValueError" and fv.enclosing(r, (ast.For, ast.While, ast.If, ast.Try)) is None]
     ctx.ob("R4", "EXIT", f, "fall-through raises ValueError", bool(last) and not cfg.falls_off_end(), "inputs without a valid candidate are rejected with ValueError")
     loops = [s for s in statements(f.node) if isinstance(s, ast.For) and "most_common" in src(s.iter)]
-    ok = len(loops) == 1 and "eof_shellcode_offsets + nonce_offsets" in src(loops[0].iter).replace("nonce_offsets + eof_shellcode_offsets", "eof_shellcode_offsets + nonce_offsets")
+    ok = False
+    if len(loops) == 1:
+        adds = [n for n in ast.walk(loops[0].iter) if isinstance(n, ast.BinOp) and isinstance(n.op, ast.Add)]
+        if adds:
+            from csverif.q import reaching_origins
+            srcs = []
+            for side in (adds[0].left, adds[0].right):
+                for o in reaching_origins(ctx, f, side, loops[0]):
+                    srcs.append(src(o))
+            ok = any("iter_nonce_offsets" in x for x in srcs) and any("iter_find_needle" in x for x in srcs)
     ctx.ob("R4", "AGREE", f, "candidates = marker + size-relation offsets", ok, "both candidate sources are tried" if ok else "candidate loop does not range over both sources")
